@@ -177,17 +177,17 @@ package eventlogger
 //@ func (*graphMap).Store(id, root)
 //@   requires g != nil
 //@   assigns syncmap, ev
-//@   ensures (id in view(g.m)) && view(g.m)[id] == root
-//@   ensures forall k PipelineID :: k != id ==> (k in view(g.m)) == old(k in view(g.m)) && view(g.m)[k] == old(view(g.m)[k])
-//@   ensures onlychanged("syncmap", g.m)
+//@   ensures (id in view(g.m)) && view(g.m)[id] == root && holdsType(g.m, id, "*registeredPipeline")
+//@   ensures forall k PipelineID :: k != id ==> (k in view(g.m)) == old(k in view(g.m)) && view(g.m)[k] == old(view(g.m)[k]) && holdsType(g.m, k, "*registeredPipeline") == old(holdsType(g.m, k, "*registeredPipeline"))
+//@   ensures onlychanged("syncmap", g.m) && unchanged("ncall") && unchanged("ncallr")
 //@   ensures C07/single-atomic-store: ev_n == old(ev_n) + 1 && ev_kind(old(ev_n)) == "mapstore" && ev_a(old(ev_n), 0) == ref(g.m) && ev_a(old(ev_n), 1) == id
 
 //@ func (*graphMap).Delete(id)
 //@   requires g != nil
 //@   assigns syncmap, ev
 //@   ensures !(id in view(g.m))
-//@   ensures forall k PipelineID :: k != id ==> (k in view(g.m)) == old(k in view(g.m)) && view(g.m)[k] == old(view(g.m)[k])
-//@   ensures onlychanged("syncmap", g.m)
+//@   ensures forall k PipelineID :: k != id ==> (k in view(g.m)) == old(k in view(g.m)) && view(g.m)[k] == old(view(g.m)[k]) && holdsType(g.m, k, "*registeredPipeline") == old(holdsType(g.m, k, "*registeredPipeline"))
+//@   ensures onlychanged("syncmap", g.m) && unchanged("ncall") && unchanged("ncallr")
 //@   ensures ev_n == old(ev_n) + 1 && ev_kind(old(ev_n)) == "mapdelete" && ev_a(old(ev_n), 0) == ref(g.m) && ev_a(old(ev_n), 1) == id
 
 //@ func (*Broker).IsAnyPipelineRegistered(e) (found)
@@ -198,10 +198,17 @@ package eventlogger
 //@   rangeloop 1 invariant !found && (forall k PipelineID :: !seen(1, k))
 
 //@ func (*Broker).RemovePipeline(t, id) (err)
-//@   requires b != nil && noLocksHeld() && wfGraphs(b)
-//@   ensures C05/bad-args-noop: (t == "" || id == "" || !old(t in b.graphs)) ==> err != nil && unchanged("syncmap")
+//@   requires b != nil && noLocksHeld() && wfGraphs(b) && wfNodes(b) && wfAllPipelines(b)
+//@   ensures C05/bad-args-noop: (t == "" || id == "" || !old(t in b.graphs)) ==> err != nil && unchanged("syncmap") && nodesUnchanged(b)
 //@   ensures C07/removed: !(t == "" || id == "" || !old(t in b.graphs)) ==> err == nil && !(id in view(b.graphs[t].roots.m)) && onlychanged("syncmap", b.graphs[t].roots.m) && (forall k PipelineID :: k != id ==> (k in view(b.graphs[t].roots.m)) == old(k in view(b.graphs[t].roots.m)) && view(b.graphs[t].roots.m)[k] == old(view(b.graphs[t].roots.m)[k]))
+//@   ensures C06/references-released: !(t == "" || id == "" || !old(t in b.graphs)) ==> (forall x NodeID :: (x in b.nodes) ==> b.nodes[x].referenceCount == old(b.nodes[x].referenceCount) - ((old(registeredPipelineLists(b, t, id, x)) && old(b.nodes[x].referenceCount) > 0) ? 1 : 0))
+//@   ensures C06/node-table-kept: (forall i NodeID :: (i in b.nodes) == old(i in b.nodes) && b.nodes[i] == old(b.nodes[i])) && (forall u *nodeUsage :: old(allocated(u)) ==> u.node == old(u.node) && u.registrationPolicy == old(u.registrationPolicy))
 //@   ensures graphs-untouched: forall u EventType :: (u in b.graphs) == old(u in b.graphs) && b.graphs[u] == old(b.graphs[u])
+//@   ensures wf: wfGraphs(b) && wfNodes(b)
+//@   ensures wf-typed: wfpTyped(b)
+//@   ensures wf-links-a: wfpLinksA(b)
+//@   ensures wf-links-b: wfpLinksB(b)
+//@   ensures wf-distinct: wfpDistinct(b)
 //@   ensures unlocked: noLocksHeld()
 //@   ensures C04/single-critical-section: acquisitions(b.lock) <= old(acquisitions(b.lock)) + 1
 
@@ -266,9 +273,12 @@ package eventlogger
 //@   ensures C07/existing-graphs-kept: forall u EventType :: old(u in b.graphs) ==> (u in b.graphs) && b.graphs[u] == old(b.graphs[u])
 //@   ensures C06+C07/node-table-kept: (forall i NodeID :: (i in b.nodes) == old(i in b.nodes) && b.nodes[i] == old(b.nodes[i])) && (forall u *nodeUsage :: old(allocated(u)) ==> u.node == old(u.node) && u.registrationPolicy == old(u.registrationPolicy))
 //@   ensures wf: wfGraphs(b) && wfNodes(b)
-//@   ensures wf-pipelines: wfAllPipelines(b)
+//@   ensures wf-typed: wfpTyped(b)
+//@   ensures wf-links-a: wfpLinksA(b)
+//@   ensures wf-links-b: wfpLinksB(b)
+//@   ensures wf-distinct: wfpDistinct(b)
 //@   ensures C06/failure-changes-no-count: err != nil ==> (forall u *nodeUsage :: old(allocated(u)) ==> u.referenceCount == old(u.referenceCount))
-//@   ensures C06/one-reference-per-listed-node: err == nil ==> (forall x NodeID :: (x in b.nodes) ==> b.nodes[x].referenceCount == old(b.nodes[x].referenceCount) - ((old(registeredPipelineLists(b, def.EventType, def.PipelineID, x)) && old(b.nodes[x].referenceCount) > 0) ? 1 : 0) + ((x in def.NodeIDs) ? 1 : 0))
+//@   ensures C06/one-reference-per-listed-node: err == nil ==> (forall x NodeID :: (x in b.nodes) ==> b.nodes[x].referenceCount == old(b.nodes[x].referenceCount) - ((old(def.EventType in b.graphs) && old(def.PipelineID in view(b.graphs[def.EventType].roots.m)) && listed(old(view(b.graphs[def.EventType].roots.m)[def.PipelineID].rootNode), x) && old(b.nodes[x].referenceCount) > 0) ? 1 : 0) + ((x in def.NodeIDs) ? 1 : 0))
 //@   ensures unlocked: noLocksHeld()
 //@   ensures C04/single-critical-section: acquisitions(b.lock) <= old(acquisitions(b.lock)) + 1
 //@   rangeloop 1 invariant pol == AllowOverwrite && !seen(1, def.PipelineID)
@@ -349,7 +359,7 @@ package eventlogger
 
 //@ pure chainNodesNonNil(root *linkedNode) bool = forall j int :: 0 <= j && j < root.clen ==> root.chain[j].node != nil
 
-//@ pure wfPipelines(g *graph) bool = forall p PipelineID :: (p in view(g.roots.m)) ==> view(g.roots.m)[p] != nil && isChain(view(g.roots.m)[p].rootNode) && chainNodesNonNil(view(g.roots.m)[p].rootNode)
+//@ pure wfPipelines(g *graph) bool = forall p PipelineID :: (p in view(g.roots.m)) ==> holdsType(g.roots.m, p, "*registeredPipeline") && view(g.roots.m)[p] != nil && isChain(view(g.roots.m)[p].rootNode) && chainNodesNonNil(view(g.roots.m)[p].rootNode)
 
 //@ func (*graph).doReopen(ctx, node) (err)
 //@   ghostparam root *linkedNode, k int
@@ -379,7 +389,13 @@ package eventlogger
 //@ type Broker ghostfield gpos map[EventType]int
 //@ type Broker ghostfield gtyp map[int]EventType
 
-//@ pure wfAllPipelines(b *Broker) bool = forall t EventType :: (t in b.graphs) ==> wfPipelines(b.graphs[t])
+//@ pure wfpTyped(b *Broker) bool = forall t EventType, p PipelineID :: (t in b.graphs) && (p in view(b.graphs[t].roots.m)) ==> holdsType(b.graphs[t].roots.m, p, "*registeredPipeline") && view(b.graphs[t].roots.m)[p] != nil && view(b.graphs[t].roots.m)[p].rootNode != nil && view(b.graphs[t].roots.m)[p].rootNode.clen >= 1 && view(b.graphs[t].roots.m)[p].rootNode.chain[0] == view(b.graphs[t].roots.m)[p].rootNode
+//@ pure wfpLinksA(b *Broker) bool = forall t EventType, p PipelineID, k int :: (t in b.graphs) && (p in view(b.graphs[t].roots.m)) && 0 <= k && k < view(b.graphs[t].roots.m)[p].rootNode.clen ==> (k in view(b.graphs[t].roots.m)[p].rootNode.chain) && view(b.graphs[t].roots.m)[p].rootNode.chain[k] != nil && allocated(view(b.graphs[t].roots.m)[p].rootNode.chain[k]) && view(b.graphs[t].roots.m)[p].rootNode.chain[k].node != nil
+//@ pure wfpLinksB(b *Broker) bool = forall t EventType, p PipelineID, k int :: (t in b.graphs) && (p in view(b.graphs[t].roots.m)) && 0 <= k && k < view(b.graphs[t].roots.m)[p].rootNode.clen ==> allocated(arr(view(b.graphs[t].roots.m)[p].rootNode.chain[k].next)) && (k < view(b.graphs[t].roots.m)[p].rootNode.clen - 1 ==> len(view(b.graphs[t].roots.m)[p].rootNode.chain[k].next) == 1 && view(b.graphs[t].roots.m)[p].rootNode.chain[k].next[0] == view(b.graphs[t].roots.m)[p].rootNode.chain[k+1]) && (k == view(b.graphs[t].roots.m)[p].rootNode.clen - 1 ==> len(view(b.graphs[t].roots.m)[p].rootNode.chain[k].next) == 0)
+//@ pure wfpLinks(b *Broker) bool = wfpLinksA(b) && wfpLinksB(b)
+//@ pure wfpDistinct(b *Broker) bool = forall t EventType, p PipelineID, j int, k int :: (t in b.graphs) && (p in view(b.graphs[t].roots.m)) && 0 <= j && j < k && k < view(b.graphs[t].roots.m)[p].rootNode.clen ==> view(b.graphs[t].roots.m)[p].rootNode.chain[j] != view(b.graphs[t].roots.m)[p].rootNode.chain[k]
+
+//@ pure wfAllPipelines(b *Broker) bool = wfpTyped(b) && wfpLinks(b) && wfpDistinct(b)
 
 //@ func (*Broker).Reopen(ctx) (err)
 //@   requires b != nil && noLocksHeld() && wfGraphs(b) && wfAllPipelines(b)
@@ -427,12 +443,13 @@ package eventlogger
 //@ type graphMap ghostfield npos map[NodeID]int
 
 //@ func (*graphMap).Nodes(id) (ids, err)
-//@   requires g != nil && ((id in view(g.m)) ==> view(g.m)[id] != nil && isChain(view(g.m)[id].rootNode))
+//@   requires g != nil && ((id in view(g.m)) ==> holdsType(g.m, id, "*registeredPipeline") && view(g.m)[id] != nil && isChain(view(g.m)[id].rootNode))
 //@   assigns map:map[NodeID]struct{}, elem:*linkedNode, linkedNode.fj, linkedNode.fwit, elem:NodeID, graphMap.npos, iter
-//@   ensures C06/unknown-pipeline-has-no-nodes: !(id in view(g.m)) ==> err != nil
+//@   ensures C06/unknown-pipeline-has-no-nodes: (err != nil) <==> !(id in view(g.m))
 //@   ensures C06/error-returns-nothing: err != nil ==> len(ids) == 0
 //@   ensures C06/only-ids-of-the-pipeline: err == nil ==> (id in view(g.m)) && (forall a int :: 0 <= a && a < len(ids) ==> 0 <= view(g.m)[id].rootNode.fwit[ids[a]] && view(g.m)[id].rootNode.fwit[ids[a]] < view(g.m)[id].rootNode.clen && view(g.m)[id].rootNode.chain[view(g.m)[id].rootNode.fwit[ids[a]]].nodeID == ids[a])
 //@   ensures C06/every-id-of-the-pipeline: err == nil ==> (forall k int :: 0 <= k && k < view(g.m)[id].rootNode.clen ==> 0 <= g.npos[view(g.m)[id].rootNode.chain[k].nodeID] && g.npos[view(g.m)[id].rootNode.chain[k].nodeID] < len(ids) && ids[g.npos[view(g.m)[id].rootNode.chain[k].nodeID]] == view(g.m)[id].rootNode.chain[k].nodeID)
+//@   ensures C06/exactly-the-listed-ids: err == nil ==> (forall x NodeID :: (x in ids) <==> listed(view(g.m)[id].rootNode, x))
 //@   ensures C06/each-id-once: forall a int, c int :: 0 <= a && a < c && c < len(ids) ==> ids[a] != ids[c]
 //@   ensures frame: (err == nil ==> fresh(arr(ids))) && oldobjects("elem:*linkedNode") && oldobjects("map:map[NodeID]struct{}") && oldobjects("elem:NodeID")
 //@   ghost at loop 1 backedge havoc graphMap.npos: forall x NodeID :: g.npos[x] == (x == k ? i - 1 : old(g.npos[x]))
@@ -458,3 +475,41 @@ package eventlogger
 //@   ensures wf: wfNodes(b)
 //@   loop 1 invariant forall x NodeID :: (x in b.nodes) ==> b.nodes[x].referenceCount == old(b.nodes[x].referenceCount) - (((x in ids[:rangeindex+1]) && old(b.nodes[x].referenceCount) > 0) ? 1 : 0)
 //@   loop 1 invariant forall u *nodeUsage :: (forall x NodeID :: (x in b.nodes) ==> b.nodes[x] != u) ==> u.referenceCount == old(u.referenceCount)
+
+//@ func (*Broker).detachPipelineAndNodes(t, id) (detached, nodeErr, err)
+//@   requires b != nil && noLocksHeld() && wfGraphs(b) && wfNodes(b) && wfAllPipelines(b)
+//@   ensures C05/failed-precondition-is-noop: err != nil ==> unchanged("syncmap") && nodesUnchanged(b)
+//@   assigns syncmap, ev, map:map[NodeID]*nodeUsage, nodeUsage.referenceCount, map:map[NodeID]Node, held, lockacq, multierror, graphMap.npos, linkedNode.fj, linkedNode.fwit, elem:*linkedNode, elem:NodeID, map:map[NodeID]struct{}, iter, elem:error, elem:any
+//@   ensures C05/unknown-pipeline-fails: !(old(t in b.graphs) && old(id in view(b.graphs[t].roots.m))) ==> err != nil
+//@   ensures C06/closes-nothing: calls("Closer.Close") == old(calls("Closer.Close"))
+//@   ensures C06/pipeline-removed: err == nil ==> !(id in view(b.graphs[t].roots.m)) && onlychanged("syncmap", b.graphs[t].roots.m) && (forall k PipelineID :: k != id ==> (k in view(b.graphs[t].roots.m)) == old(k in view(b.graphs[t].roots.m)) && view(b.graphs[t].roots.m)[k] == old(view(b.graphs[t].roots.m)[k]))
+//@   ensures C06/unlisted-nodes-untouched: err == nil ==> (forall x NodeID :: !old(registeredPipelineLists(b, t, id, x)) ==> (x in b.nodes) == old(x in b.nodes) && b.nodes[x] == old(b.nodes[x]) && (old(x in b.nodes) ==> b.nodes[x].referenceCount == old(b.nodes[x].referenceCount)) && !(x in detached))
+//@   ensures C06/last-reference-unregisters: err == nil ==> (forall x NodeID :: old(registeredPipelineLists(b, t, id, x)) && old(x in b.nodes) && old(b.nodes[x].referenceCount) <= 1 ==> !(x in b.nodes) && (old(b.nodes[x].node) != nil ==> (x in detached) && detached[x] == old(b.nodes[x].node)))
+//@   ensures C06/shared-nodes-stay-registered: err == nil ==> (forall x NodeID :: old(registeredPipelineLists(b, t, id, x)) && old(x in b.nodes) && old(b.nodes[x].referenceCount) > 1 ==> (x in b.nodes) && b.nodes[x] == old(b.nodes[x]) && b.nodes[x].referenceCount == old(b.nodes[x].referenceCount) - 1 && !(x in detached))
+//@   ensures C06/detached-were-registered: err == nil ==> (forall x NodeID :: (x in detached) ==> old(x in b.nodes) && !(x in b.nodes) && detached[x] == old(b.nodes[x].node) && detached[x] != nil)
+//@   ensures graphs-untouched: forall u EventType :: (u in b.graphs) == old(u in b.graphs) && b.graphs[u] == old(b.graphs[u])
+//@   ensures wf: wfGraphs(b) && wfNodes(b)
+//@   ensures wf-typed: wfpTyped(b)
+//@   ensures wf-links-a: wfpLinksA(b)
+//@   ensures wf-links-b: wfpLinksB(b)
+//@   ensures wf-distinct: wfpDistinct(b)
+//@   ensures unlocked: noLocksHeld()
+//@   ensures C04/single-critical-section: acquisitions(b.lock) <= old(acquisitions(b.lock)) + 1
+//@   loop 1 invariant held(b.lock) == 2 && wfNodes(b) && detached != nil && fresh(detached) && calls("Closer.Close") == old(calls("Closer.Close"))
+//@   loop 1 invariant forall x NodeID :: !(x in nodes[:rangeindex+1]) ==> (x in b.nodes) == old(x in b.nodes) && b.nodes[x] == old(b.nodes[x]) && (old(x in b.nodes) ==> b.nodes[x].referenceCount == old(b.nodes[x].referenceCount)) && !(x in detached)
+//@   loop 1 invariant forall x NodeID :: (x in nodes[:rangeindex+1]) && old(x in b.nodes) && old(b.nodes[x].referenceCount) <= 1 ==> !(x in b.nodes) && (old(b.nodes[x].node) != nil ==> (x in detached) && detached[x] == old(b.nodes[x].node))
+//@   loop 1 invariant forall x NodeID :: (x in nodes[:rangeindex+1]) && old(x in b.nodes) && old(b.nodes[x].referenceCount) > 1 ==> (x in b.nodes) && b.nodes[x] == old(b.nodes[x]) && b.nodes[x].referenceCount == old(b.nodes[x].referenceCount) - 1 && !(x in detached)
+//@   loop 1 invariant forall x NodeID :: (x in detached) ==> old(x in b.nodes) && !(x in b.nodes) && detached[x] == old(b.nodes[x].node) && detached[x] != nil
+//@   loop 1 invariant forall u *nodeUsage :: old(allocated(u)) ==> u.node == old(u.node) && u.registrationPolicy == old(u.registrationPolicy)
+
+//@ func (*Broker).RemovePipelineAndNodes(ctx, t, id) (ok, err)
+//@   requires b != nil && noLocksHeld() && wfGraphs(b) && wfNodes(b) && wfAllPipelines(b)
+//@   ensures C05/false-is-noop: !ok ==> err != nil && unchanged("syncmap") && nodesUnchanged(b) && calls("Closer.Close") == old(calls("Closer.Close"))
+//@   ensures C06/unknown-pipeline-is-false: !(t != "" && id != "" && old(t in b.graphs) && old(id in view(b.graphs[t].roots.m))) ==> !ok
+//@   ensures C06/pipeline-removed: ok ==> !(id in view(b.graphs[t].roots.m)) && onlychanged("syncmap", b.graphs[t].roots.m)
+//@   ensures C06/unlisted-nodes-untouched: ok ==> (forall x NodeID :: !old(registeredPipelineLists(b, t, id, x)) ==> (x in b.nodes) == old(x in b.nodes) && b.nodes[x] == old(b.nodes[x]) && (old(x in b.nodes) ==> b.nodes[x].referenceCount == old(b.nodes[x].referenceCount)))
+//@   ensures C06/last-reference-unregisters: ok ==> (forall x NodeID :: old(registeredPipelineLists(b, t, id, x)) && old(x in b.nodes) && old(b.nodes[x].referenceCount) <= 1 ==> !(x in b.nodes))
+//@   ensures C06/shared-nodes-stay-registered: ok ==> (forall x NodeID :: old(registeredPipelineLists(b, t, id, x)) && old(x in b.nodes) && old(b.nodes[x].referenceCount) > 1 ==> (x in b.nodes) && b.nodes[x] == old(b.nodes[x]) && b.nodes[x].referenceCount == old(b.nodes[x].referenceCount) - 1)
+//@   ensures unlocked: noLocksHeld()
+//@   ensures C04/single-critical-section: acquisitions(b.lock) <= old(acquisitions(b.lock)) + 1
+//@   loop 1 invariant noLocksHeld() && calls("Closer.Close") <= entry(calls("Closer.Close")) + produced()
